@@ -80,6 +80,14 @@ class Monitor:
             reset = [a for a in now["agents"] if a in prev["agents"] and prev["agents"][a][0] and now["agents"][a][0] == 0]
             if reset and not all(v[3] for v in prev["agents"].values()):
                 self.hit("C07", "reset without consensus", "the game was reset although an agent in the game had not asked for it")
+            # C08 at the coordinator level: when the reset task resets the game (consensus reached, requests withdrawn), the world
+            # is exactly the pristine world again, whoever acted or left before
+            if prev["agents"] and all(v[3] for v in prev["agents"].values()) and now["agents"] and not any(v[3] for v in now["agents"].values()):
+                w = self.world_snapshot()
+                if self.world0 is not None and w != self.world0:
+                    diff = [k for k in w if w[k] != self.world0[k]]
+                    self.hit(["C08", "C07"], "world not restored by the reset task", f"after the collective reset the world tables {diff} differ from their initial condition")
+                self.count("resets_world_checked")
         else:
             # C05: once rewarded, the reward does not change until the reset
             for a, v in now["agents"].items():
@@ -97,6 +105,15 @@ class Monitor:
                     self.hit("C10" if (owner is not None and owner not in now["agents"]) else "C07", "foreign change",
                              f"steps/view/end flag of an agent changed in a segment of another agent ({label})")
         self.prev = now
+
+    def world_snapshot(self):
+        g = self.S.g
+        try:
+            return {"data": {str(k): sorted(repr(d) for d in v) for k, v in g._data.items()},
+                    "firewall": {str(k): sorted(str(x) for x in v) for k, v in g._firewall.items()},
+                    "blocks": {str(k): sorted(str(x) for x in v) for k, v in g._fw_blocks.items() if v}}
+        except Exception:
+            return None
 
     # ---- outputs ---------------------------------------------------------------------------------------
     def scan_outputs(self):
@@ -129,6 +146,8 @@ class Monitor:
             if held is not None and self.S.view_id(held) != self.S.view_id(obs["state"]):
                 self.hit("C15", "view differs", f"the view in the {st} response is not the view the coordinator holds for this agent")
         if st == "CREATED":
+            if self.world0 is None and not any(self.log.values()):
+                self.world0 = self.world_snapshot()          # nobody has acted yet: the pristine world
             self.init_view[addr] = obs["state"]
             self.log[addr] = []
             self.final.pop(addr, None)
@@ -268,6 +287,7 @@ class Monitor:
                 self.count(f"parked:{kind}")
 
     world_result = None
+    world0 = None
     consumed = None
     last_kind = None
     last_game = None
@@ -351,7 +371,7 @@ def instrument(S, cfg, CR, goals):
     return M
 
 
-def run_sessions(ctx, prop, n_sessions, gen_opts, cfg_opts=None, extra_monitor=None, n_directed=20):
+def run_sessions(ctx, prop, n_sessions, gen_opts, cfg_opts=None, extra_monitor=None, n_directed=22):
     """Generate sessions, follow them with the model, collect this property's monitor hits."""
     CG, CR, nsgenv = _imports()
     rng0 = random.Random(ctx.seed * 104729 + int(prop[1:]))
